@@ -67,6 +67,11 @@ pub enum Perturb {
     SubmitAddMsg,
     SubmitReorder,
     SubmitChangeField(u8, Field),
+    /// the submitted batch repeats the approval slot (source chain, id) of its k-th message: an entry the signers never saw,
+    /// differing from the signed one in another field, is put in front of the batch (true) or at its end (false)
+    SubmitShadowSlot(u8, Field, bool),
+    /// the k-th message appears a second time in the submitted batch (at the end), exactly as signed
+    SubmitRepeatMsg(u8),
     // set that was never installed
     NeverInstalled,
 }
@@ -130,6 +135,8 @@ fn perturb() -> impl Strategy<Value = Perturb> {
         1 => Just(Perturb::SubmitReorder),
         1 => (0u8..4, prop_oneof![Just(Field::Chain), Just(Field::Id), Just(Field::Src), Just(Field::Dest), Just(Field::PayloadHash)]).prop_map(|(i, f)| Perturb::SubmitChangeField(i, f)),
         1 => Just(Perturb::NeverInstalled),
+        2 => (0u8..4, prop_oneof![Just(Field::Src), Just(Field::Dest), Just(Field::PayloadHash)], any::<bool>()).prop_map(|(i, f, front)| Perturb::SubmitShadowSlot(i, f, front)),
+        1 => (0u8..4).prop_map(Perturb::SubmitRepeatMsg),
     ]
 }
 
@@ -310,6 +317,25 @@ impl C01 {
             }
             Perturb::SubmitAddMsg => submitted.push((b"extra".to_vec(), b"extra-id".to_vec(), b"x".to_vec(), 0, h32("ph", 99))),
             Perturb::SubmitReorder if submitted.len() > 1 => submitted.reverse(),
+            Perturb::SubmitShadowSlot(i, f, front) => {
+                let k = *i as usize % submitted.len();
+                let mut m = submitted[k].clone();
+                match f {
+                    Field::Dest => m.3 = (m.3 + 1) % 3,
+                    Field::PayloadHash => m.4[31] ^= 1,
+                    _ => m.2.push(b'x'),
+                }
+                if *front {
+                    submitted.insert(0, m);
+                } else {
+                    submitted.push(m);
+                }
+            }
+            Perturb::SubmitRepeatMsg(i) => {
+                let k = *i as usize % submitted.len();
+                let m = submitted[k].clone();
+                submitted.push(m);
+            }
             Perturb::SubmitChangeField(i, f) => {
                 let k = *i as usize % submitted.len();
                 let m = &mut submitted[k];
@@ -473,6 +499,10 @@ impl C01 {
             let mut pre: Vec<Message> = vec![];
             for (i, m) in sub.msgs.iter().enumerate() {
                 if case.pre_approved >> (i % 8) & 1 == 1 {
+                    // (a repeated approval slot: only the first content submitted for it is what gets approved)
+                    if sub.msgs[..i].iter().enumerate().any(|(j, q)| already[j] && q.0 == m.0 && q.1 == m.1) {
+                        continue;
+                    }
                     already[i] = true;
                     pre.push(Message {
                         source_chain: sstr_bytes(&env, &m.0),
@@ -481,6 +511,14 @@ impl C01 {
                         contract_address: dests[m.3 as usize].clone(),
                         payload_hash: BytesN::from_array(&env, &m.4),
                     });
+                }
+            }
+            // what is approved now: every submitted entry equal to the first content pre-approved for its slot
+            for i in 0..sub.msgs.len() {
+                let m = &sub.msgs[i];
+                let first = sub.msgs.iter().enumerate().find(|(j, q)| already[*j] && q.0 == m.0 && q.1 == m.1).map(|(_, q)| q.clone());
+                if let Some(q) = first {
+                    already[i] = q == *m;
                 }
             }
             if !pre.is_empty() {
